@@ -3,7 +3,15 @@
 L4 = ["layer4/verif_common_test.go"]
 INTEG = ["integration/verif_common_test.go"]
 
+MATCH = dict(name="match", pkg="./integration/", test="TestVerifMatch", files=INTEG + ["integration/verif_chain_test.go", "integration/verif_match_test.go", "integration/verif_match2_test.go"],
+             nq=20000, nt=400000)
+
 PROPS = {
+    "C04": dict(
+        lean_modules=["L4.Props.C04"],
+        stages=[dict(MATCH, only_sigs=["panic:", "alloc:"])],
+        level_text="x", level_note="y",
+    ),
     "C01": dict(
         lean_modules=["L4.Props.C01"],
         stages=[
